@@ -41,18 +41,38 @@ from ..interpolatableFunction import InterpolatableFunction, inputType, outputTy
 
 
 def _integrator(
-    func: typing.Callable, a: float, b: float
+    func: typing.Callable,
+    a: float,
+    b: float,
+    points: typing.Sequence[float] | None = None,
 ) -> float:
     """
-    Simple wrapper for scipy.integrate.quad with defaults inbuilt
+    Simple wrapper for scipy.integrate.quad with defaults inbuilt.
+    Interior points where the integrand is singular or discontinuous
+    can be passed as points.
     """
     res = scipy.integrate.quad(
         func,
         a,
         b,
         limit=100,
+        points=points if points else None,
     )
     return float(res[0])
+
+
+def _breakPoints(x: float, firstMultiple: int) -> list[float]:
+    """
+    For x < 0, the values of y in (0, sqrt(-x)) where sqrt(-y**2 - x) equals
+    firstMultiple*pi, (firstMultiple + 2)*pi, ... There the integrands for negative
+    x have a logarithmic singularity (real part) and a jump (imaginary part).
+    """
+    points = []
+    n = firstMultiple
+    while (n * np.pi) ** 2 < -x:
+        points.append(float(np.sqrt(-x - (n * np.pi) ** 2)))
+        n += 2
+    return points
 
 
 class JbIntegral(InterpolatableFunction):
@@ -142,11 +162,13 @@ class JbIntegral(InterpolatableFunction):
                 )
                 resImag = 0.0
             else:
+                points = _breakPoints(xWrapper, 2)
                 resReal = (
                     _integrator(
                         lambda y: JbIntegral._integrandNegativeReal(xWrapper, y),
                         0.0,
-                        np.sqrt(np.abs(xWrapper))
+                        np.sqrt(np.abs(xWrapper)),
+                        points,
                     )
                     + _integrator(
                         lambda y: JbIntegral._integrandPositiveReal(xWrapper, y),
@@ -157,7 +179,8 @@ class JbIntegral(InterpolatableFunction):
                 resImag = _integrator(
                     lambda y: JbIntegral._integrandNegativeImaginary(xWrapper, y),
                     0.0,
-                    np.sqrt(np.abs(xWrapper))
+                    np.sqrt(np.abs(xWrapper)),
+                    points,
                 )
 
             return complex(resReal + 1j * resImag)
@@ -259,11 +282,13 @@ class JfIntegral(InterpolatableFunction):
                 )
                 resImag = 0.0
             else:
+                points = _breakPoints(xWrapper, 1)
                 resReal = (
                     _integrator(
                         lambda y: JfIntegral._integrandNegativeReal(xWrapper, y),
                         0.0,
-                        np.sqrt(np.abs(xWrapper))
+                        np.sqrt(np.abs(xWrapper)),
+                        points,
                     )
                     + _integrator(
                         lambda y: JfIntegral._integrandPositiveReal(xWrapper, y),
@@ -274,7 +299,8 @@ class JfIntegral(InterpolatableFunction):
                 resImag = _integrator(
                     lambda y: JfIntegral._integrandNegativeImaginary(xWrapper, y),
                     0.0,
-                    np.sqrt(np.abs(xWrapper))
+                    np.sqrt(np.abs(xWrapper)),
+                    points,
                 )
 
             return complex(resReal + 1j * resImag)
